@@ -294,6 +294,10 @@ def c04_jobs(tier):
     return jobs
 
 
+def c17_jobs(tier):
+    return [J("sml", "ZZ_C17_noninterference", op=op) for op in range(10)]
+
+
 def c12_jobs(tier):
     jobs = []
     for w in (1, 2, 4, 8, 0, 3):
@@ -334,6 +338,13 @@ def smoke_jobs(tier):
 
 
 PROPS = {
+    "C17": dict(jobs=c17_jobs, must_reach=["end"], level="other",
+                explanation="Non-interference certificate decided by symbolic execution: for each operation named in the property (print, encode, list, fill incl. ellipsis expansion, producers, both parsers) on symbolic shared objects, the engine's write-set monitor shows on every explored path that the call stores only into memory it allocated itself (no store into any cell reachable from the shared items/messages/arguments or from any package-level variable of the repository; stores under a held sync.Mutex or inside sync.Once.Do are exempt) and that the result is identical under four map iteration orders. Calls that only read shared memory cannot race and cannot influence each other, whatever the schedule. Real schedules are not executed.",
+                level_text="Sufficient-condition certificate (not schedule exploration): symbolic execution with a ghost write-set monitor over all cells reachable from the shared objects and package-level variables, plus map-iteration-order independence of every result.",
+                level_note="The engine is single-threaded: Go scheduler interleavings are not enumerated and the race detector is not run. Standard-library entry points (regexp, fmt, strconv, unicode) are trusted to be goroutine-safe as documented. A change that starts goroutines makes the check INCONCLUSIVE.",
+                technique="symbolic execution of go/ssa with a ghost write-set monitor (non-interference certificate) + SMT-decided path feasibility",
+                bounds={"operations": 10, "objects": "one template message (variables of all kinds, ellipsis), one complete message; constants symbolic", "map orders": 4},
+                outside=["actual concurrent schedules", "operations on objects outside the menu"]),
     "C04": dict(jobs=c04_jobs, must_reach=["end"],
                 level_text="Bounded model checking of print->parse: messages are built with constructors from symbolic header fields, names, characters and numbers, printed by the real String methods (fmt/strconv modelled, digits of symbolic numbers materialised by forking on their length) and parsed by the real lexer/parser in the same path; the result must be one message, no diagnostics, equal fields/variables/printed form/bytes. Conversely accepted menu texts are printed and re-parsed (fixed point).",
                 level_note="Trusted: go/ssa, engine string/number models, z3 (decimal digit arithmetic), strconv's float printing and parsing (menu only).",
